@@ -299,6 +299,9 @@ inductive TExpr where
   | has (m : TExpr) (f : List Nat)
   /-- `l.all(x, body)`, `l.exists(x, body)`, `l.exists_one(x, body)` with the body instantiated per element -/
   | macroBool (kind : Nat) (bodies : List TExpr)
+  /-- `r.map(x, body)` (`isFilter = false`) / `r.filter(x, body)` over a list or the keys of a map: the range's
+  elements and the body instantiated per element -/
+  | macroList (isFilter : Bool) (elems : List Val) (bodies : List TExpr)
   /-- `[e₁, …]` -/
   | listLit (es : List TExpr)
   deriving Repr, Inhabited
@@ -396,6 +399,14 @@ def evalT (c : Ctx) : TExpr → PyM Val
         | 1 => vs.any id
         | _ => (vs.filter id).length == 1
       .ok (mkBool c.macroWrapped r)
+  | .macroList isFilter elems bodies =>
+      if isFilter then do
+        let bs ← evalBodies c bodies
+        let kept := ((elems.zip bs).filter (fun p => p.2)).map (fun p => p.1)
+        .ok (if c.W.listMacro then .list kept else .nlist kept)
+      else do
+        let vs ← evalList c bodies
+        .ok (if c.W.listMacro then .list vs else .nlist vs)
   | .listLit es => do let vs ← evalList c es; .ok (if c.W.listMacro then .list vs else .nlist vs)
 def evalBodies (c : Ctx) : List TExpr → PyM (List Bool)
   | [] => .ok []
@@ -450,6 +461,8 @@ def typeOfE : TExpr → Option Cls
   | .strPred _ a b => do let x ← typeOfE a; let y ← typeOfE b; if x = .str ∧ y = .str then some .bool else none
   | .has m _ => do let x ← typeOfE m; if x = .map then some .bool else none
   | .macroBool _ bodies => if allBool bodies then some .bool else none
+  | .macroList isFilter _ bodies =>
+      if (if isFilter then allBool bodies else allTyped bodies) then some .list else none
   | .listLit es => if allTyped es then some .list else none
 def allBool : List TExpr → Bool
   | [] => true
@@ -468,6 +481,7 @@ def usesHas : TExpr → Bool
   | .cond g a b => usesHas g || usesHas a || usesHas b
   | .has _ _ => true
   | .macroBool _ bodies => usesHasList bodies
+  | .macroList _ _ bodies => usesHasList bodies
   | .listLit es => usesHasList es
 def usesHasList : List TExpr → Bool
   | [] => false
